@@ -53,7 +53,7 @@ def rand_history(seed: int) -> list:
     events = []
     nsteps = rng.randint(1, 5)
     KINDS = ["wrap_offset", "wrap_offset", "wrap_pattern", "mark_occurrence", "mark_position", "mark_range", "mark_content", "strip_tags", "delete", "strip_self",
-             "mark_element"]
+             "mark_element", "mark_first_child"]
     MARKS = {"mark_occurrence", "mark_position", "mark_range", "mark_content", "delete", "mark_element"}
     kinds = [rng.choice(KINDS) for _ in range(nsteps)]
     if rng.random() < 0.3:
@@ -100,6 +100,11 @@ def rand_history(seed: int) -> list:
             if not idx:
                 continue
             o = {"op": kind, "i": rng.choice(idx), "alone": note_ok}
+        elif kind == "mark_first_child":
+            if step != nsteps - 1:
+                continue        # a note / annotation only as the last operation (its text is counted by later offsets)
+            idx = [0] + [i + 1 for i, t in enumerate(tokens) if t["k"] == "o"]
+            o = {"op": kind, "i": rng.choice(idx)}
         elif kind == "strip_self":
             idx = [i + 1 for i, t in enumerate(tokens) if t["k"] == "o"]
             if not idx:
